@@ -36,6 +36,9 @@ RELAY_CLASSES = {
     "amp": ["&", "&amp;", "&quot;", "&#x22;", "&lt;script&gt;", "a&b=c", "&Signature=AAAA&SigAlg=x", "&SAMLResponse=evil", "&RelayState=other",
             "?x=1&y=2", "%26SAMLRequest%3Dx", "a=b;c=d", "#frag", "+plus+", "%", "%zz", "%00"],
     "newline": ["line1\nline2", "tab\there", "cr\rlf", "\n", "a\r\nSet-Cookie: x=1"],
+    # text that means something to a templating step (the form is made from a template with named slots)
+    "template": ["{action}", "{saml_response_input}", "{relay_state_input}", "{name}", "{val}", "{type}", "{0}", "{}", "{{action}}", "%s", "%(action)s", "${action}",
+                 "x{action}y{val}", "\\g<0>"],
     "unicode": ["Müller", "日本語テキスト", "😀 emoji", " nbsp", "‮rtl", "ﬁ ligature", "é"],
 }
 
@@ -272,7 +275,7 @@ def gen_cases(tier, seed):
                 if rclass not in ("empty", "plain"):
                     for _ in range(n_extra):
                         picks.append("".join(rng.choice(vals + [gen.word(rng, 1, 4)]) for _ in range(rng.randint(2, 5))))
-                if tier == "quick":
+                if tier == "quick" and not (rclass == "template" and binding == "post"):
                     picks = rng.sample(picks, min(3, len(picks)))
                 for ri, relay in enumerate(picks):
                     for dk in sorted(DESTS):
